@@ -206,19 +206,21 @@ def bumpOcc (occs : List (Cls × Nat)) (cls : Cls) : List (Cls × Nat) × Nat :=
   | none => ((cls, 1) :: occs, 1)
   | some (_, n) => (occs.map (fun p => if p.1 == cls then (p.1, n + 1) else p), n + 1)
 
+/-- which fault (if any) hits the `n`-th call of class `cls` -/
+def faultHit (f : Option Fault) (cls : Cls) (n : Nat) : Option FaultKind :=
+  match f with
+  | some f => if f.cls == cls && f.occ == n then some f.kind else none
+  | none => none
+
 /-- One backend call: trace it, apply its effect unless it fails before, raise the error if it fails. -/
 def call (cls : Cls) (args : Args) (eff : State → State) (result : Args := .none) (natErr : State → Bool := fun _ => false) : M Unit := fun r =>
-  let (occs, n) := bumpOcc r.occs cls
-  let hit : Option FaultKind := match r.fault with
-    | some f => if f.cls == cls && f.occ == n then some f.kind else none
-    | none => none
-  let line (res : Args) (err : Bool) : Ev := { cls := cls, args := args, res := res, err := err }
-  match hit with
+  let b := bumpOcc r.occs cls
+  match faultHit r.fault cls b.2 with
   | none =>
-    if natErr r.s then .error { r with occs := occs, trace := line .none true :: r.trace }
-    else .ok ((), { r with occs := occs, trace := line result false :: r.trace, s := eff r.s })
-  | some .failBefore => .error { r with occs := occs, trace := line .none true :: r.trace }
-  | some .failAfter => .error { r with occs := occs, trace := line result true :: r.trace, s := eff r.s }
+    if natErr r.s then .error { r with occs := b.1, trace := { cls := cls, args := args, res := .none, err := true } :: r.trace }
+    else .ok ((), { r with occs := b.1, trace := { cls := cls, args := args, res := result, err := false } :: r.trace, s := eff r.s })
+  | some .failBefore => .error { r with occs := b.1, trace := { cls := cls, args := args, res := .none, err := true } :: r.trace }
+  | some .failAfter => .error { r with occs := b.1, trace := { cls := cls, args := args, res := result, err := true } :: r.trace, s := eff r.s }
 
 /-- `logger.log`: set committedState FIRST, then append to the log file. -/
 def logStep (st : Step) : M Unit := do
@@ -458,42 +460,50 @@ def rollbackStores (w : WS) : M Unit := do
   if ds.isEmpty then return ()
   let _ ← attempt (call .srUpdate (.deltas ds) (fun s => ds.foldl (fun s (st, d) => s.addCnt st d) s))
 
+/-- run `m` only when `c` holds (keeps `do` blocks linear) -/
+def whenM (c : Bool) (m : M Unit) : M Unit := if c then m else pure ()
+
+def rollbackValues (w : WS) : M Unit := do
+  for st in w.stores do
+    whenM (!st.values.isEmpty) (do let _ ← attempt (call .blobRemove (.ids (st.values)) (fun s => s.delBlobs st.values)))
+
+def removeCreatedStores (w : WS) : M Unit := do
+  for st in w.stores do
+    whenM st.created (do
+      let _ ← attempt (call .srRemove (.store st.store)
+        (fun s => { s with storeExists := fun k => if k = st.store then false else s.storeExists k,
+                           cnt := fun k => if k = st.store then 0 else s.cnt k })))
+
 /-- `Transaction.rollback(ctx, rollbackTrackedItemsValues)`. Errors are collected, never short-circuit. -/
 def rollback (w : WS) (values : Bool) : M Unit := do
   let r ← get
   let c := r.cs.ord
-  if c > Step.finalizeCommit.ord then fail
-  if c ≥ Step.beforeFinalize.ord then
-    let _ ← attempt (call .plogRemove .none (fun s => { s with plog := fun k => if k = r.tid then false else s.plog k }))
-  if c > Step.commitStoreInfo.ord then rollbackStores w
-  if c > Step.commitAddedNodes.ord then rollbackAdded w
-  if c > Step.commitRemovedNodes.ord then rollbackRemoved w
-  if c > Step.commitUpdatedNodes.ord then rollbackUpdated w
+  whenM (c > Step.finalizeCommit.ord) fail
+  whenM (c ≥ Step.beforeFinalize.ord) (do
+    let _ ← attempt (call .plogRemove .none (fun s => { s with plog := fun k => if k = r.tid then false else s.plog k })))
+  whenM (c > Step.commitStoreInfo.ord) (rollbackStores w)
+  whenM (c > Step.commitAddedNodes.ord) (rollbackAdded w)
+  whenM (c > Step.commitRemovedNodes.ord) (rollbackRemoved w)
+  whenM (c > Step.commitUpdatedNodes.ord) (rollbackUpdated w)
   unlockNodesKeys
-  if c > Step.commitNewRootNodes.ord then rollbackNewRoots w
-  if values && c ≥ Step.commitTrackedItemsValues.ord then
-    for st in w.stores do
-      if !st.values.isEmpty then
-        let _ ← attempt (call .blobRemove (.ids (st.values)) (fun s => s.delBlobs st.values))
-  if c ≥ Step.lockTrackedItems.ord then
-    let _ ← attempt (unlockItems w)
-  if c ≥ Step.createStore.ord then
-    for st in w.stores do
-      if st.created then
-        let _ ← attempt (call .srRemove (.store st.store)
-          (fun s => { s with storeExists := fun k => if k = st.store then false else s.storeExists k,
-                             cnt := fun k => if k = st.store then 0 else s.cnt k }))
+  whenM (c > Step.commitNewRootNodes.ord) (rollbackNewRoots w)
+  whenM (values && c ≥ Step.commitTrackedItemsValues.ord) (rollbackValues w)
+  whenM (c ≥ Step.lockTrackedItems.ord) (do let _ ← attempt (unlockItems w))
+  whenM (c ≥ Step.createStore.ord) (removeCreatedStores w)
   let _ ← attempt (call .tlogRemove .none (fun s => { s with tlog := fun k => if k = r.tid then false else s.tlog k }) .none (fun s => !s.tlog r.tid))
   modify (fun r => { r with cs := .unknown })
 
 /-! ## phase 1 -/
 
+/-- `commitTrackedItemsValues`: one blob-store Add per store that has separate-segment values -/
+def addValues (w : WS) : M Unit := do
+  for st in w.stores do
+    whenM (!st.values.isEmpty) (call .blobAdd (.ids (st.values)) (fun s => s.addBlobs st.values))
+
 /-- one pass of the body of the `for !successful` loop, after the locks are held; `true` = successful -/
 def phase1Body (w : WS) : M Bool := do
   logStep .commitTrackedItemsValues
-  for st in w.stores do
-    if !st.values.isEmpty then
-      call .blobAdd (.ids (st.values)) (fun s => s.addBlobs st.values)
+  addValues w
   logStep .commitNewRootNodes
   let ok ← commitNewRoots w
   if !ok then return false
@@ -517,49 +527,58 @@ def lockNodes : M Bool := do
   let ok ← attempt (call .l2Lock (.keys (ks))
     (fun s => if free then { s with nodeLock := fun k => if ks.contains k then some r.tid else s.nodeLock k } else s)
     (.bool free))
-  if !ok then
+  if !ok then do
     -- `if err != nil { t.l2Cache.Unlock(ctx, t.nodesKeys); return err }`
     let _ ← attempt (unlockKeys ks)
     fail
-  if !free then return false
-  call .l2IsLocked (.keys (ks)) id (.bool true)
-  return true
+  else if !free then pure false
+  else do
+    call .l2IsLocked (.keys (ks)) id (.bool true)
+    pure true
 
-/-- `phase1Commit`, one round of its loop. A round that is not successful ends in outcome `conflict` after the
-live rollback of its partial changes: what the next round commits is decided by refetch-and-merge in the
-B-tree layer (it can differ from `w`), so the next round is a new `commit` with a new write set. -/
-def phase1 (w : WS) (maxRetry : Nat) : M Unit := do
-  if !w.hasTracked then return ()
-  logStep .lockTrackedItems
-  lockItems w
-  mergeNodesKeys w
-  let locked ← lockNodes
-  if !locked then
-    let r ← get
-    let _ ← attempt (unlockKeys (keysOrEmpty r))
-    modify (fun r => { r with conflicted := true })
-    fail     -- someone else holds a node lock: unlock, sleep, refetch and retry (outside this model)
-  let ok ← phase1Body w
-  if !ok then
-    -- retryCount++ (the cap is reached only after `maxRetry` rounds); rollback of the partial changes, then retry
-    if maxRetry ≤ 1 then fail
-    rollback w false
-    modify (fun r => { r with conflicted := true })
-    fail
+/-- someone else holds a node lock: unlock, sleep, refetch and retry (the retry is outside this model) -/
+def giveUpLocked : M Unit := do
+  let r ← get
+  let _ ← attempt (unlockKeys (keysOrEmpty r))
+  modify (fun r => { r with conflicted := true })
+  fail
+
+/-- the round was not successful: `retryCount++` (the cap is reached only after `maxRetry` rounds), live rollback
+of the partial changes, then retry -/
+def conflictRound (w : WS) (maxRetry : Nat) : M Unit := do
+  whenM (maxRetry ≤ 1) fail
+  rollback w false
+  modify (fun r => { r with conflicted := true })
+  fail
+
+/-- the part of `phase1Commit` after the loop: store counts, priority log, lock re-checks -/
+def finishPhase1 (w : WS) : M Unit := do
   logStep .commitStoreInfo
   commitStores w
   logStep .beforeFinalize
   let r ← get
-  if !r.reserved.isEmpty || !r.removedH.isEmpty then
-    call .plogAdd .none (fun s => { s with plog := fun k => if k = r.tid then true else s.plog k })
+  whenM (!r.reserved.isEmpty || !r.removedH.isEmpty)
+    (call .plogAdd .none (fun s => { s with plog := fun k => if k = r.tid then true else s.plog k }))
   checkItems w
   let r ← get
-  if !(keysOrEmpty r).isEmpty then
+  whenM (!(keysOrEmpty r).isEmpty) (do
     -- nodesKeysNilOrLocked; when it does not confirm, one DualLock attempt decides
     let ok ← attempt (call .l2IsLocked (.keys ((keysOrEmpty r))) id (.bool true))
-    if !ok then
-      let ks := keysOrEmpty r
-      call .l2DualLock (.keys (ks)) (fun s => { s with nodeLock := fun k => if ks.contains k then some r.tid else s.nodeLock k }) (.bool true)
+    let ks := keysOrEmpty r
+    whenM (!ok) (call .l2DualLock (.keys (ks)) (fun s => { s with nodeLock := fun k => if ks.contains k then some r.tid else s.nodeLock k }) (.bool true)))
+
+/-- `phase1Commit`, one round of its loop. A round that is not successful ends in outcome `conflict` after the
+live rollback of its partial changes: what the next round commits is decided by refetch-and-merge in the
+B-tree layer (it can differ from `w`), so the next round is a new `commit` with a new write set. -/
+def phase1 (w : WS) (maxRetry : Nat) : M Unit :=
+  if !w.hasTracked then pure () else do
+    logStep .lockTrackedItems
+    lockItems w
+    mergeNodesKeys w
+    let locked ← lockNodes
+    if !locked then giveUpLocked else do
+      let ok ← phase1Body w
+      if !ok then conflictRound w maxRetry else finishPhase1 w
 
 /-- `activateInactiveNodes` / `touchNodes` -/
 def activate (h : Handle) : Handle := { h.flip with version := h.version + 1, wip := 1 }
